@@ -30,6 +30,27 @@ func (x *Exec) footprintFor(env *SpecEnv, assigns []AssignSpec, name string) *fo
 				fp.whole = true
 				hit = true
 			}
+		case "target":
+			v := env.eval(a.E)
+			if v.K == KIface && v.Dyn != nil {
+				v = *v.Dyn
+			}
+			if v.K == KRef {
+				if et := pointee(v.T); et != nil {
+					if x.isStructLike(et) {
+						st := et.Underlying().(*types.Struct)
+						for i := 0; i < st.NumFields(); i++ {
+							if n, _ := x.fieldHeapName(et, i); n == name {
+								fp.refs = append(fp.refs, v.S)
+								hit = true
+							}
+						}
+					} else if n, _ := x.opaqueHeap(et); n == name {
+						fp.refs = append(fp.refs, v.S)
+						hit = true
+					}
+				}
+			}
 		case "field":
 			obj := env.eval(a.E)
 			ref, objT := x.objectOf(obj)
